@@ -161,6 +161,8 @@ def run_shard(args):
     run_driver(path, path + '.model', flags)
     return path, time.time() - t0
 
+PLAN_OF = {}
+
 def follow_flags(owned):
     f = []
     if 'av.kind' not in owned:
@@ -189,6 +191,8 @@ def run_plan(pid, plan, seed, workdir, flags=()):
                 a['first'] = s
             jobs.append((item['scen'], a, os.path.join(workdir, f'{pid}_{k}_{s}.lines'), tuple(flags)))
     paths = []
+    for (scen, a, path, fl) in jobs:
+        PLAN_OF[path] = {'scen': scen, 'args': {k: v for k, v in a.items() if k not in ('n', 'first')}, 'flags': list(fl)}
     with concurrent.futures.ThreadPoolExecutor(max_workers=NCPU) as ex:
         for path, dt in ex.map(run_shard, jobs):
             paths.append(path)
@@ -207,7 +211,9 @@ def load_known():
 def write_replay(pid, kind, run, failure, proof, extra=None):
     os.makedirs(os.path.join(OUT, 'replay'), exist_ok=True)
     path = os.path.join(OUT, 'replay', f'{pid}_{kind}_{int(time.time())}_{os.getpid()}.json')
+    plan = PLAN_OF.get(getattr(run, 'src', None)) if run is not None else None
     doc = {'property': pid, 'kind': kind,
+           'rerun': ({'scen': plan['scen'], 'args': plan['args'], 'flags': plan['flags'], 'h': run.h} if plan else None),
            'run_header': run.header if run else None,
            'lines': run.lines() if run else [],
            'oracle_failure': {k: v for k, v in failure.items()} if failure and 'sentence' in failure else None,
